@@ -97,4 +97,52 @@ PROPS = {
 
 NOT_APPLICABLE = {p: "check under construction in this round (claimed once its model, theorems and engine are committed)" for p in
                   ["C%02d" % i for i in range(1, 21)]}
-HOOK_COMMITS = []
+HOOK_COMMITS = ["c6f7867"]
+
+PROPS["C16"] = {'assumptions': ['HKDF-SHA256 is injective on the secrets in use (collision resistance)',
+                 'crypto/rand yields the 64 lowercase hex characters randomHexKey documents'],
+ 'engines': ['claim'],
+ 'lean': 'CedarProps.C16',
+ 'level_note': "Well-formedness for policy_carried / info_roundtrip / expiry_lockstep: cipher names without ';' and '.', version absent, compact or '<token> "
+               "<compact> ...', expiry second positive and within int64. strings.TrimSpace/Fields modelled for ASCII white space. 'Same expiry' holds whenever "
+               "the id carries an expiry; without one each side applies only its own local fallback (importer's Duration is the importer's configuration, not "
+               "a minting option). A resumption handshake has no key confirmation: 'cannot' = no application data delivered in either direction. time.Now is "
+               'sampled once per mint.',
+ 'level_text': "parse_mint (every sinful incl. '#', '[', ']'; every hex secret), same_session (import of a minted id never fails; same id, key = HKDF(secret), "
+               'cipher, and every policy attribute except User), expiry_agrees / expiry_lockstep, policy_carried, info_roundtrip / export_import_export (text '
+               'survives parse+render; expiry as integer or string), different_secret_different_key, corrupt_secret (every single-character corruption incl. '
+               "'#' and ']'), resumes_both_directions, wrong_secret_never_delivers, public_independent_of_secret (non-interference), filetrans_shared: "
+               'kernel-checked over the model for all options. Tied to the code by the claim engine: options from the sinful/cipher/version/command/lifetime '
+               'grammar, cache entries on both ends compared field by field with the model and with each other, session_info text compared with an independent '
+               'spec rendering, real handshakes naming the session explicitly in both directions with application data, one secret corruption per case, '
+               'malformed ids/texts/policies.',
+ 'oracle_engine': {'claim': 'claim'},
+ 'technique': "Lean 4 theorems (grammar lemma for the split on the last '#'; parse-after-render of the session_info text by induction over the rendered "
+              'fields; decimal round trip; policy lookups) + correspondence on the real MintClaimSession / ImportClaimSession / ImportFileTransferSession / '
+              'Export+ImportSecSessionInfo with real handshakes in both directions',
+ 'trusted': ['HKDF-SHA256 is a free constructor in the model (distinct secrets give distinct keys; DESIGN §3); the claim engine evaluates it with an HKDF '
+             'written out by hand (hmac+sha256) and compares real key bytes',
+             'resumption handshake modelled as: both ends key their streams from their cache entries, data delivered iff the keys agree (symbolic AEAD); tied '
+             'to the code by real client/server handshakes']}
+
+PROPS["C18"] = {'assumptions': ["the transport delivers the client's result code (otherwise see client_cleanup_fails)",
+                 '/tmp is a real directory; mkdir/rmdir/lstat behave as documented'],
+ 'engines': ['fspath'],
+ 'lean': 'CedarProps.C18',
+ 'level_note': "Quantifier: path strings (and first messages) with a working transport; the kernel's os.Root confinement is the second layer and is not "
+               'modelled (the model shows the first layer alone suffices). The base directory itself is assumed not to be a symlink planted by an adversary.',
+ 'level_text': "validate_shape (accepted => path = base/leaf, single safe component, recognised shape, address-qualified names only for the connection's own "
+               'endpoint), addr_qualified_names_peer, rejects_everything_else with rejects_{relative,noncanonical,nested,other_parent,traversal}, '
+               'client_effects / client_mkdir_confined / at_most_one_mkdir / client_refuses / client_no_path_no_effect (every first message, every '
+               'environment), client_cleanup_partial (every continuation once the result code was handed to the transport), client_cleanup_fails (recorded '
+               'observation: a failing send of the result code leaves the directory), server_accepts_only / server_identity_only_on_accept / '
+               'server_success_means_verdict_zero: kernel-checked over the model. Tied to the code by the fspath engine: path grammar + mutations through '
+               'validateFSAuthPath, fsAddrLeaf, verifyFSPathEndpoint (hooks), filepath and net.ParseIP against the transcriptions, whole client exchanges '
+               'against a scripted server with before / at-reply / after filesystem snapshots, whole server exchanges against 25 kinds of object left at the '
+               'path, honest exchanges over TCP loopback (IPv4, IPv6); every accepted path also judged by a reference recogniser written from the statement.',
+ 'oracle_engine': {'fspath': 'fspath'},
+ 'technique': 'Lean 4 theorems (lexical characterisation of Clean/Dir/Base-accepted paths, leaf-shape recognisers refined to existential shape specifications, '
+              'effect log of the client exchange by case analysis over every environment) + correspondence through hooks (validator, address recogniser, '
+              'endpoint check at volume) and through the whole client and server exchanges with filesystem snapshots',
+ 'trusted': ['os.Root / kernel (mkdir, rmdir, lstat), user.LookupId, net.SplitHostPort and net.Addr.String are parameters of the model (any outcome); regex, '
+             'filepath and net.ParseIP are transcribed as byte-level recognisers and compared with the real ones on every run']}
